@@ -223,6 +223,7 @@ _WORLD_EXTRA_PROFILE = {      # further profiles of harness/world.c run under th
             (('C07D', 1, 1, 4), ('C07D', 2, 2, 5))],      # context calls (also a second m_ctx_register) armed inside callbacks of plain and DENY_CTX modules      # context registered with NAME_DUP / auto-free name and user data
     'C19': [(('C19T', 1, 0, 6), ('C19T', 2, 0, 7))],      # tick period changed while the loop runs: never more often than the period in force
     'C04': [(('C04F', 2, 1, 5), ('C04F', 2, 2, 6)),
+            (('C04N', 1, 1, 5), ('C04N', 2, 2, 6)),      # the same on a non persistent context (released when its last module goes, also inside the final flush)
             (('C09S', 1, 0, 5), ('C09S', 1, 0, 7))],      # subscriptions with DUP topics / AUTOFREE user data / replacement under the memory-safety oracle
     'C13': [(('C13B', 1, 0, 5), ('C13B', 1, 0, 7))],      # batching and priorities on a module that also has a token bucket (refill ticks are internal timer events)
     'C20': [(('C20T', 1, 1, 6), ('C20T', 2, 2, 6))],      # the context tick: set / cleared at top level and from callbacks, also while the loop stops
